@@ -55,6 +55,9 @@ structure Kind where
   isSpawn : Bool
   deriving DecidableEq, Repr, Inhabited
 
+/-- branches run on OS threads of their own (when more than one is active) -/
+def Kind.threads (k : Kind) : Bool := k.isSpawn && !k.isAsync
+
 def Kind.ofString (s : String) : Option Kind :=
   match s.toList with
   | ['a', a, 't', t, 's', sp] =>
